@@ -87,7 +87,16 @@ _compiler = None
 def compiler():
     global _compiler
     if _compiler is None:
-        _compiler = vrt.new_compiler()
+        key = vrt.std_schema_key()
+        warm = all(os.path.exists(os.path.join(str(vrt.CACHE_DIR), f'{n}-{key}.pickle'))
+                   for n in ('stdschema', 'reflschema'))
+        if warm:
+            _compiler = vrt.new_compiler()
+        else:
+            # the std / reflection schema of this tree is not cached yet: build it once, not once per worker
+            with open(os.path.join(CACHE, 'std.lock'), 'w') as lk:
+                fcntl.flock(lk, fcntl.LOCK_EX)
+                _compiler = vrt.new_compiler()
     return _compiler
 
 
@@ -165,7 +174,8 @@ def _w_dispatch(ctx, ql, *a, **kw):
     if OBS.get('in_dispatch'):
         # nested use by the compiler itself (e.g. the statements of a migration body): not a unit
         return _orig_dispatch(ctx, ql, *a, **kw)
-    rec = {'ndml': 0, 'trees': [], 'cls': type(ql).__name__}
+    rec = {'ndml': 0, 'trees': [], 'cls': type(ql).__name__,
+           'track': isinstance(ql, (qlast.Query, qlast.ExplainStmt, qlast.DescribeStmt))}
     OBS['cur'] = rec
     OBS['in_dispatch'] = True
     OBS.setdefault('stmts', []).append(rec)
@@ -303,7 +313,23 @@ def stored_vols(user_schema, fns):
     return out
 
 
+_fnvol_seen = {}
+
+
 def fnvol_monitor(user_schema, bad, where):
+    key = id(user_schema)
+    if key in _fnvol_seen and _fnvol_seen[key][0] is user_schema:
+        bad.extend(f'{where}:{x}' for x in _fnvol_seen[key][1])
+        return
+    found = []
+    _fnvol_monitor(user_schema, found)
+    if len(_fnvol_seen) > 256:
+        _fnvol_seen.clear()
+    _fnvol_seen[key] = (user_schema, found)
+    bad.extend(f'{where}:{x}' for x in found)
+
+
+def _fnvol_monitor(user_schema, found):
     memo = {}
     for name, fl in user_functions(user_schema).items():
         for f in fl:
@@ -315,7 +341,7 @@ def fnvol_monitor(user_schema, bad, where):
             except Exception:
                 continue
             if ql_writes(body, user_schema, memo) and str(f.get_volatility(user_schema)) != 'Modifying':
-                bad.append(f'{where}:fnvol:{name}-writes-but-stored-{f.get_volatility(user_schema)}')
+                found.append(f'fnvol:{name}-writes-but-stored-{f.get_volatility(user_schema)}')
 
 
 REASONS = [
@@ -323,7 +349,9 @@ REASONS = [
     (2, re.compile(r'cannot be used in an ORDER BY clause')),
     (4, re.compile(r"mutations are invalid in a shape's computed expression")),
     (16, re.compile(r'volatility mismatch')),
-    (32, re.compile(r'mutations are invalid in |volatile default expression|index expressions must be immutable')),
+    (32, re.compile(r'mutations are invalid in |volatile default expression|index expressions must be immutable|'
+                    r'volatile functions are not permitted in schema-defined computed expressions|'
+                    r'has a volatile using expression|cannot use SET OF function .* in an index expression')),
     (256, re.compile(r'cannot be executed in an implicit transaction block|'
                      r'CONFIGURE INSTANCE cannot be executed in a transaction block')),
     (64, re.compile(r'already in transaction|not in transaction|savepoints can only be used|there is no .* savepoint|'
@@ -452,7 +480,8 @@ def run_case(case):
             caps = int(u.capabilities)
             gor |= caps
             o = obs[ui] if ui < len(obs) else {'ndml': 0, 'trees': [], 'comp': '?'}
-            cells.append(f'{caps}.{o["ndml"]}')
+            # len(ir.dml_exprs) is reported for query statements only (DDL compiles internal reflection queries)
+            cells.append(f'{caps}.{o["ndml"] if o.get("track") else 0}')
             ql = stmts[ui] if ui < len(stmts) else None
             sql = sql_text_of(u)
             has_mod = bool(caps & int(CAP.MODIFICATIONS))
@@ -539,7 +568,9 @@ def main():
             r = classes_line(json.loads(line[len('@classes '):]))
         else:
             try:
+                t0 = time.time()
                 r = run_case(json.loads(line))
+                r += f' @{int((time.time() - t0) * 1000)}'
             except Exception as e:      # harness-level failure: never silently dropped
                 import traceback
                 traceback.print_exc(file=sys.stderr)
